@@ -1,5 +1,6 @@
 import FDAModel.Core.Proto
 import FDAModel.Core.Quadrature
+import FDAModel.Geometry
 open FDA FDA.Proto
 
 /-- Σ|terms| of the trapezoid sum (scale for the float tolerance). -/
@@ -88,6 +89,35 @@ def answer (l : String) : String :=
           - (if i = k then σ2 else 0)
       showMat (toMat N N fun i k => if i = k then (rd2 G i k + rd2 G k i) / 2 else rd2 G i k + rd2 G k i)
     | _, _, _, _ => "bad"
+  | ["simpsonw", t] =>
+    match parseVec? t with
+    | some ts =>
+      let ta := ts.toArray
+      if ts.length < 3 then "error" else showVec (toList ts.length (simpsonW ts.length (rd ta)))
+    | none => "bad"
+  | ["normsq_stand", t, x] =>
+    match parseVec? t, parseMat? x with
+    | some ts, some X =>
+      let Xa := (X.map List.toArray).toArray
+      let ta := ts.toArray
+      let n := ts.length
+      if rd ta (n - 1) = rd ta 0 then "error:zero-range" else
+      let sa := tabA n (standGrid n (rd ta))
+      showVec ((List.range X.length).map fun i => normSq n (rd sa) (rd2 Xa i))
+    | _, _ => "bad"
+  | ["coefgram", t, phi, c] =>
+    match parseVec? t, parseMat? phi, parseMat? c with
+    | some ts, some Φ, some C =>
+      let Φa := (Φ.map List.toArray).toArray
+      let Ca := (C.map List.toArray).toArray
+      let ta := ts.toArray
+      let K := Φ.length
+      let N := C.length
+      let G := tabA2 K K (basisGram ts.length (rd ta) (rd2 Φa))
+      -- `coefGram` with the basis Gram matrix tabulated
+      showMat (toMat N N fun i j =>
+        ((List.range K).map fun k => ((List.range K).map fun l => rd2 Ca i k * rd2 G k l * rd2 Ca j l).foldl (· + ·) 0).foldl (· + ·) 0)
+    | _, _, _ => "bad"
   | _ => "bad-op"
 
 def main : IO Unit := serve answer
